@@ -453,7 +453,9 @@ def segments(H):
         def havoc(self, env, it):
             self.n = next(v for k, v in env.items() if hasattr(v, "z") and v.z.sort().kind() == 2)
             self.before = len(H.interp.frames[-1].yields)
-            H.assume(self.n >= 1)  # established before the loop (segments.count_...), num_segments is not modified
+            # established before the loop (segments.count_...); num_segments and theta_arc are not modified by the body
+            self.bound = (abs(dth) <= self.n * (H.PI / 2 + 0.001 + 1e-8))
+            H.assume(And(self.n >= 1, self.bound))
 
         def element(self, env, it):
             self.i = H.int("i")
@@ -477,7 +479,10 @@ def segments(H):
             quarter = 0.25 * (te - ts)  # written as in the code
             sq, cq = H.trig(quarter)
             H.prove(H.close(quarter, d / 4), "segments.step_is_extent_over_n")
-            H.prove(abs(d) <= H.PI / 2 + 0.001 + 1e-8, "segments.each_spans_at_most_quarter_turn_plus_0.001")
+            # a three-fact query (everything else hidden): |dth| <= n h and n >= 1 give |dth / n| <= h
+            from pyvc.sym import PI_AXIOMS, bool_z
+
+            H.prove_raw(list(PI_AXIOMS) + [bool_z(self.n >= 1), bool_z(self.bound)], abs(d) <= H.PI / 2 + 0.001 + 1e-8, "segments.each_spans_at_most_quarter_turn_plus_0.001")
             # control distance k = 4/3 tan(d/4), tan characterised by tan * cos == sin
             tq = H.call(math.tan, 0.25 * (te - ts))
             H.prove(H.close(tq * cq, sq), "segments.control_distance_uses_tan_of_quarter_step")
